@@ -31,7 +31,30 @@ let parse_res = function
   | s -> failwith ("bad res " ^ s)
 let show_res = function SvsCommit.ROk -> "ok" | SvsCommit.RErr -> "err" | SvsCommit.RKilled -> "killed"
 
+(* fault=trunc: the proxy shortened the final chunk of a compressed stream (observation field
+   trunc=1); the pull failed inside the client after the end-of-stream flag.  The commit model has
+   no such fault: the line is judged by the extracted oracle alone, with "a connection cut before
+   anything arrived" standing in as the fault (ok_C10 only asks whether something went wrong). *)
+let trunc_step cs os =
+  let f = fields cs and o = fields os in
+  match get_opt o "crash" with
+  | Some c -> ["BAD\tside=impl\tclause=crash:" ^ c]
+  | None ->
+    if get_opt o "trunc" <> Some "1" then [] else begin
+      let stream = bytes_of_hex (get f "stream") in
+      let wire = let w = get f "wire" in if w = "=" then stream else bytes_of_hex w in
+      let case = { SvsCommit.c_puller = parse_puller (get f "pu"); c_stream = stream; c_wire = wire;
+                   c_comp = (get f "comp" = "1"); c_chunk = n_of_hex (get f "chunk");
+                   c_trailer = n_of_hex (get f "trailer"); c_dst = parse_content (get f "dst");
+                   c_tmp = parse_content (get f "tmp"); c_fault = SvsCommit.FCut (n_of_int 0) } in
+      let impl = { SvsCommit.o_res = parse_res (get o "res"); o_dst = parse_content (get o "dst");
+                   o_tmp = (get o "tmp" = "1") } in
+      if SvsCommit.ok_C10 case impl then []
+      else ["BAD\tside=impl\tclause=a pull whose compressed stream was incomplete published a file or left a temp file (or reported success)"]
+    end
+
 let step _ cs os =
+  if get_opt (fields cs) "fault" = Some "trunc" then trunc_step cs os else
   let f = fields cs and o = fields os in
   let stream = bytes_of_hex (get f "stream") in
   let wire = let w = get f "wire" in if w = "=" then stream else bytes_of_hex w in
